@@ -61,7 +61,7 @@ def main(tier, seed):
     wroot = os.path.join(bdir, "verif-work", "c18-%d" % os.getpid())
     shutil.rmtree(wroot, ignore_errors=True)
     os.makedirs(wroot)
-    nsch = 30 if tier == "quick" else 2000
+    nsch = 90 if tier == "quick" else 2000
     evals = 0
     oracle_fail = 0
     disagreements = 0
